@@ -43,6 +43,8 @@ def cases(tier, seed):
         yield dict(kind='file', forecasts=chunk)
     for chunk in space.chunks(fcs, 12):
         yield dict(kind='resample', forecasts=chunk)
+    for chunk in space.chunks(fcs, 40):
+        yield dict(kind='history', forecasts=chunk)
     # calibration test: every sub-sequence (length 1..4) of a fixed family of six evaluation results (one of them not-valid)
     yield dict(kind='calibration')
     if tier == 'thorough':
@@ -283,6 +285,25 @@ def run_tests(fc, forecast, obs_types, reg, origins, mags, failures, hsh, which,
     return evals, cls
 
 
+def run_subthreshold(fc, forecast, obs_types, reg, origins, mags, failures, hsh):
+    """Observed catalog that was not pre-filtered: one extra event below the lowest magnitude edge. The magnitude statistic
+    is defined on the histograms over the magnitude range, so it must be that of the in-range events."""
+    from csep.core import catalog_evaluations as ce
+    evs = events(obs_types, origins, mags, 500) + [('sub', 1262304000000 + 999000, origins[0][1] + 0.05, origins[0][0] + 0.05, 10.0, mags[0] - 1.0)]
+    obs = fixtures.catalog(evs, region=reg, name='obs')
+    rep = dict(kind='subthreshold', forecast=forecast, obs=list(obs_types))
+    cls = 'observed-event-below-lowest-magnitude-edge'
+    if len(obs_types) == 0:
+        return 0      # every in-range histogram is empty although the catalog is not: not defined by the documentation
+    try:
+        res = ce.magnitude_test(fc, obs, verbose=False)
+    except Exception as e:
+        failures.append(Fail(f'catalog_evaluations.magnitude_test|{type(e).__name__}|{cls}', f'{type(e).__name__}: {e} forecast={forecast} obs={obs_types}+sub-threshold', rep))
+        return 1
+    compare('catalog_evaluations.magnitude_test', res, Ref(forecast).magnitude(obs_types), cls, rep, failures, hsh)
+    return 1
+
+
 def run_resample(forecast, obs_types, reg, origins, mags, failures, hsh):
     from csep.core import catalog_evaluations as ce
     ref = Ref(forecast)
@@ -340,10 +361,39 @@ def run_case(case):
                 e, cls = run_tests(fc, forecast, obs_types, reg, origins, mags, failures, hsh, None, 'mem')
                 evals += e
                 states += 1
+                if len(obs_types) <= 1 and not all(len(c) == 0 for c in forecast):
+                    evals += run_subthreshold(fc, forecast, obs_types, reg, origins, mags, failures, hsh)
                 if cls != 'general' or len(set(t // NM for t in obs_types)) < len(obs_types):
                     nontriv += 1
             if len(failures) > 80:
                 break
+    elif k == 'history':
+        # multi-step histories on one forecast object: N-test, then the stored synthetic catalogs are thinned in place
+        # ('magnitude >= 6.0' keeps the events of the upper magnitude bin), then the N-test again
+        from csep.core import catalog_evaluations as ce
+        for forecast in case['forecasts']:
+            thinned = [[t for t in c if t % NM == 1] for c in forecast]
+            for obs_types in ([], [1], [0, 1]):
+                fc = mem_forecast(forecast, reg, origins, mags)
+                rep = dict(kind='history', forecasts=[forecast])
+                states += 1
+                nontriv += 1
+                for step, cur in (('first use', forecast), ('after in-place thinning of the stored catalogs', thinned)):
+                    if step != 'first use':
+                        for c in fc.catalogs:
+                            c.filter('magnitude >= 6.0')
+                    obs = fixtures.catalog(events(obs_types, origins, mags, 500), region=reg, name='obs')
+                    try:
+                        res = ce.number_test(fc, obs, verbose=False)
+                    except Exception as e:
+                        failures.append(Fail(f'catalog_evaluations.number_test|{type(e).__name__}|history', f'{type(e).__name__}: {e} forecast={forecast} ({step})', rep))
+                        break
+                    evals += 1
+                    before = len(failures)
+                    compare('catalog_evaluations.number_test', res, Ref(cur).number(obs_types), 'history:' + ('first-use' if step == 'first use' else 'after-in-place-thinning'), rep, failures, hsh)
+                    if len(failures) > before:
+                        failures[-1]['detail'] += f' | forecast={forecast} obs={obs_types} step: {step}; current sizes {[len(c) for c in cur]}'
+                        break
     elif k == 'file':
         import csep
         wd = fixtures.workdir()
@@ -417,6 +467,10 @@ def run_case(case):
             fc = csep.load_catalog_forecast(path, region=reg, store=('True' in tag), name='fc')
         e, _ = run_tests(fc, forecast, obs_types, reg, origins, mags, failures, hsh, None, tag)
         evals, states = e, 1
+    elif k == 'subthreshold':
+        fc = mem_forecast(case['forecast'], reg, origins, mags)
+        evals = run_subthreshold(fc, case['forecast'], case['obs'], reg, origins, mags, failures, hsh)
+        states = 1
     elif k == 'resample1':
         sel = tuple(case['script'])
         forecast, obs_types = case['forecast'], case['obs']
